@@ -16,22 +16,208 @@ def Owned (s : PState) : Prop :=
       ∀ (j : Nat) (c' : Conn), s.conns[j]? = some c' → (c'.fr = some o ∨ c'.src = Src.flate o) → j = i) ∧
   (∀ o ∈ s.free, o < s.next) ∧ s.free.Nodup
 
+theorem getElem?_set_iff {l : List Conn} {i k : Nat} {x c : Conn} :
+    (l.set i x)[k]? = some c ↔ (k = i ∧ i < l.length ∧ c = x) ∨ (k ≠ i ∧ l[k]? = some c) := by
+  rw [List.getElem?_set]
+  by_cases hk : i = k
+  · subst hk
+    by_cases hl : i < l.length
+    · simp [hl, eq_comm]
+    · simp [hl]
+  · have : k ≠ i := fun h => hk h.symm
+    simp [hk, this]
+
+theorem getElem?_append_single_iff {l : List Conn} {k : Nat} {x c : Conn} :
+    (l ++ [x])[k]? = some c ↔ l[k]? = some c ∨ (k = l.length ∧ c = x) := by
+  rw [List.getElem?_append]
+  by_cases hk : k < l.length
+  · simp [hk]; omega
+  · simp only [hk, if_false]
+    have : l[k]? = none := by simp; omega
+    rw [this]
+    by_cases h2 : k = l.length
+    · subst h2; simp [eq_comm]
+    · obtain ⟨n, hn⟩ : ∃ n, k - l.length = n + 1 := ⟨k - l.length - 1, by omega⟩
+      simp [h2, hn]
+
 theorem owned_init : Owned init := by
-  sorry
+  refine ⟨?_, ?_, ?_⟩
+  · intro i c o h; simp [init] at h
+  · intro o h; simp [init] at h
+  · simp [init]
 
 /-- every operation preserves ownership (in particular `release` detaches `src`, so a later `read`
 cannot reach the released inflater). -/
 theorem owned_step (s : PState) (i : Nat) (op : Op) (h : Owned s) : Owned (step s i op).1 := by
-  sorry
+  obtain ⟨h1, h2, h3⟩ := h
+  cases op with
+  | open_ =>
+    refine ⟨?_, h2, h3⟩
+    simp only [step, getElem?_append_single_iff]
+    grind
+  | read =>
+    have : (step s i .read).1 = s := by
+      simp only [step]; split
+      · rfl
+      · split <;> rfl
+    rw [this]; exact ⟨h1, h2, h3⟩
+  | startPlain =>
+    simp only [step]
+    split
+    · exact ⟨h1, h2, h3⟩
+    · rename_i c hc
+      refine ⟨?_, h2, h3⟩
+      simp only [setConn, getElem?_set_iff]
+      grind
+  | release =>
+    simp only [step]
+    split
+    · exact ⟨h1, h2, h3⟩
+    · rename_i c hc
+      split
+      · exact ⟨h1, h2, h3⟩
+      · rename_i o ho
+        refine ⟨?_, ?_, ?_⟩
+        · simp only [setConn, getElem?_set_iff]
+          grind
+        · grind
+        · grind
+  | startCompressed fp =>
+    simp only [step]
+    split
+    · exact ⟨h1, h2, h3⟩
+    · rename_i c hc
+      split
+      · exact ⟨h1, h2, h3⟩
+      · rename_i ho
+        split
+        · rename_i o rest hfree
+          refine ⟨?_, ?_, ?_⟩
+          · simp only [setConn, getElem?_set_iff]
+            grind
+          · grind
+          · grind
+        · refine ⟨?_, ?_, ?_⟩
+          · simp only [setConn, getElem?_set_iff]
+            grind
+          · grind
+          · grind
+
+theorem owned_run_gen (ops : List (Nat × Op)) : ∀ s, Owned s → Owned (run s ops).1 := by
+  induction ops with
+  | nil => intro s h; exact h
+  | cons p rest ih =>
+    intro s h
+    obtain ⟨i, op⟩ := p
+    simp only [run]
+    exact ih _ (owned_step s i op h)
 
 theorem owned_run (ops : List (Nat × Op)) : Owned (run init ops).1 := by
-  sorry
+  exact owned_run_gen ops init owned_init
+
+def Agree (s : PState) (owner : Nat → Option Nat) : Prop :=
+  ∀ (o i : Nat), owner o = some i ↔ ∃ c : Conn, s.conns[i]? = some c ∧ c.fr = some o
+
+theorem monitor_step (s : PState) (i : Nat) (op : Op) (owner : Nat → Option Nat)
+    (h : Owned s) (ha : Agree s owner) :
+    ∃ owner', Agree (step s i op).1 owner' ∧
+      ∀ rest, monitor ((step s i op).2 ++ rest) owner = monitor rest owner' := by
+  obtain ⟨h1, h2, h3⟩ := h
+  unfold Agree at *
+  cases op with
+  | open_ =>
+    refine ⟨owner, ?_, fun _ => rfl⟩
+    simp only [step, getElem?_append_single_iff]
+    grind
+  | read =>
+    refine ⟨owner, ?_, ?_⟩
+    · have : (step s i .read).1 = s := by
+        simp only [step]; split
+        · rfl
+        · split <;> rfl
+      rw [this]; exact ha
+    · intro rest
+      simp only [step]
+      split
+      · rfl
+      · rename_i c hc
+        split
+        · rename_i o ho
+          have : owner o = some i := by grind
+          simp [monitor, this]
+        · rfl
+  | startPlain =>
+    refine ⟨owner, ?_, ?_⟩
+    · simp only [step]
+      split
+      · exact ha
+      · simp only [setConn, getElem?_set_iff]
+        grind
+    · intro rest
+      simp only [step]
+      split <;> rfl
+  | release =>
+    simp only [step]
+    split
+    · exact ⟨owner, ha, fun _ => rfl⟩
+    · rename_i c hc
+      split
+      · exact ⟨owner, ha, fun _ => rfl⟩
+      · rename_i o ho
+        refine ⟨fun x => if x = o then none else owner x, ?_, ?_⟩
+        · simp only [setConn, getElem?_set_iff]
+          grind
+        · intro rest
+          have : owner o = some i := by grind
+          simp [monitor, this]
+  | startCompressed fp =>
+    simp only [step]
+    split
+    · exact ⟨owner, ha, fun _ => rfl⟩
+    · rename_i c hc
+      split
+      · exact ⟨owner, ha, fun _ => rfl⟩
+      · rename_i ho
+        split
+        · rename_i o rest hfree
+          refine ⟨fun x => if x = o then some i else owner x, ?_, ?_⟩
+          · simp only [setConn, getElem?_set_iff]
+            grind
+          · intro rest
+            have : owner o = none := by
+              cases hoo : owner o with
+              | none => rfl
+              | some j => grind
+            simp [monitor, this]
+        · refine ⟨fun x => if x = s.next then some i else owner x, ?_, ?_⟩
+          · simp only [setConn, getElem?_set_iff]
+            grind
+          · intro rest
+            have : owner s.next = none := by
+              cases hoo : owner s.next with
+              | none => rfl
+              | some j => grind
+            simp [monitor, this]
+
+theorem monitor_run (ops : List (Nat × Op)) : ∀ s owner, Owned s → Agree s owner →
+    monitor (run s ops).2 owner = true := by
+  induction ops with
+  | nil => intro s owner _ _; rfl
+  | cons p rest ih =>
+    intro s owner h ha
+    obtain ⟨i, op⟩ := p
+    simp only [run]
+    obtain ⟨owner', ha', hm⟩ := monitor_step s i op owner h ha
+    rw [hm]
+    exact ih _ owner' (owned_step s i op h) ha'
 
 /-- **every `use` event is by the owner**: for any number of connections and any interleaving of
 their operations (reading again after the end of a message, abandoning a message, releasing at any
 point, new connections taking objects from the pool), the event log passes the ownership monitor. -/
 theorem all_uses_owned (ops : List (Nat × Op)) : monitor (run init ops).2 (fun _ => none) = true := by
-  sorry
+  refine monitor_run ops init _ owned_init ?_
+  intro o i
+  simp [init]
 
 /-- non-vacuity / regression: with the pre-fix behaviour (release that leaves `src` pointing to the
 inflater) the monitor rejects the log of: A reads a compressed message to its end, B starts one
